@@ -339,6 +339,17 @@ class Builder:
                     trues += t
                     cur = f
                 return trues, cur
+        if isinstance(expr, ast.Compare) and len(expr.ops) > 1:
+            parts = []
+            left = expr.left
+            for op, right in zip(expr.ops, expr.comparators):
+                parts.append(ast.Compare(left=left, ops=[op], comparators=[right]))
+                left = right
+            for x in parts:
+                ast.copy_location(x, expr)
+            conj = ast.BoolOp(op=ast.And(), values=parts)
+            ast.copy_location(conj, expr)
+            return self._cond(conj, preds, stmt)
         n = self.cfg.new('test', expr, stmt)
         for (p, l) in preds:
             self.cfg.edge(p, n, l)
